@@ -220,7 +220,7 @@ class ProgGen:
         if flavour == "scope":
             self.weights.update(var=2.0, **{"with": 0.8}, probe=0.0)
         if flavour == "provide":
-            self.weights.update(provide=1.2, probe=0.0)
+            self.weights.update(provide=2.2, probe=0.0)
         self.classes = {}
         self.slotnames = {}
         self.page_ctx = {}
@@ -253,7 +253,7 @@ class ProgGen:
             if self.flavour == "provide" and rng.random() < 0.6:
                 for key in PROVIDE_KEYS:
                     if rng.random() < 0.6:
-                        spec["inject"].append([key, f"DEF-{key}" if rng.random() < 0.75 else None])
+                        spec["inject"].append([key, f"DEF-{key}" if rng.random() < 0.9 else None])
             budget = [rng.randint(2, max(3, self.size // 2))]
             body = self.gen_nodes(budget, depth=0, in_comp=True, in_fill=False, allowed=allowed, loops=[], top=True)
             if self.flavour in ("roots",) or rng.random() < 0.0:
